@@ -98,9 +98,9 @@ func rootsOf(dump string) string { return dump }
 
 func genNDPair(c *Ctx) {
 	c.Stats.Rule = "random valid op sequences (as ND (b)) whose roots are created by `root`, run once on Go-backed and once on C-backed roots; non-trivial = at least one derived view and one write/bulk op; distinct by program text"
-	types := []string{"float64"}
-	if c.Tier == "thorough" || c.Arg("types", "") == "all" {
-		types = ndTypes
+	types := ndTypes // all 8 element-type instantiations in every tier
+	if t := c.Arg("types", ""); t != "" && t != "all" {
+		types = strings.Split(t, ",")
 	}
 	N := parseI(c.Arg("n", "1200"))
 	if c.Tier == "thorough" {
